@@ -20,6 +20,8 @@ import (
 type prov struct {
 	w     *World
 	depth int
+	phis  map[*ssa.Phi]int // numbering of phis in order of first appearance
+	open  map[*ssa.Phi]bool
 }
 
 func (w *World) Origin(v ssa.Value) string {
@@ -223,14 +225,24 @@ func (p *prov) origin(v ssa.Value, d int) string {
 	case *ssa.BinOp:
 		return "(" + p.origin(x.X, d+1) + " " + x.Op.String() + " " + p.origin(x.Y, d+1) + ")"
 	case *ssa.Phi:
+		if p.phis == nil {
+			p.phis, p.open = map[*ssa.Phi]int{}, map[*ssa.Phi]bool{}
+		}
+		k, seen := p.phis[x]
+		if !seen {
+			k = len(p.phis) + 1
+			p.phis[x] = k
+		}
+		if p.open[x] || seen {
+			return fmt.Sprintf("φ%d", k) // back-reference (loop-carried value)
+		}
+		p.open[x] = true
 		var parts []string
 		for _, e := range x.Edges {
-			if e == v {
-				continue
-			}
-			parts = append(parts, p.origin(e, d+4))
+			parts = append(parts, p.origin(e, d+1))
 		}
-		return "phi(" + strings.Join(parts, " | ") + ")"
+		p.open[x] = false
+		return fmt.Sprintf("φ%d(", k) + strings.Join(parts, " | ") + ")"
 	case *ssa.Slice:
 		return p.origin(x.X, d+1) + "[" + p.origin(x.Low, d+1) + ":" + p.origin(x.High, d+1) + "]"
 	case *ssa.MakeMap:
